@@ -73,12 +73,19 @@ def comp_bound_names(node: ast.AST) -> set[str]:
     return out
 
 
+STAR_PATH = 1000
+
+
 def _targets(t: ast.AST, path: tuple[int, ...] = ()):
     """Yield (leaf target, path) for possibly nested tuple targets."""
     if isinstance(t, (ast.Tuple, ast.List)):
+        n = len(t.elts)
+        star = next((i for i, e in enumerate(t.elts) if isinstance(e, ast.Starred)), None)
         for i, e in enumerate(t.elts):
             if isinstance(e, ast.Starred):
-                yield from _targets(e.value, path + (-1 - i,))
+                yield from _targets(e.value, path + (STAR_PATH + i,))  # the starred rest: an unknown slice
+            elif star is not None and i > star:
+                yield from _targets(e, path + (i - n,))  # counted from the end
             else:
                 yield from _targets(e, path + (i,))
     else:
